@@ -2,9 +2,53 @@
 import re, os
 from pipeline import Query, Broken, VERIF
 import layout, report
+from checks.search_common import proto_stub
 
 TUS = ['polyglot', 'position', 'types']
 ENTRIES = ['_ZNK6engine12PolyglotBook15get_random_moveEmRKNS_8PositionE', '_ZNK6engine12PolyglotBook13get_best_moveEmRKNS_8PositionE', '_ZNK6engine12PolyglotBook11decode_moveEjRKNS_8PositionE']
+
+NREC = 3
+CTOR = '_ZN6engine12PolyglotBookC2ENSt7__cxx1112basic_stringIcSt11char_traitsIcESaIcEEEm'
+
+def build_loader(ctx, m):
+    """the file-reader harness: constructor as compiled, library surface stubbed by generated definitions"""
+    if ctx.only and not re.search(ctx.only, 'h_load'): return [], []
+    names = [k[1:] if k.startswith('@') else k for k in m.funcs]
+    def one(rx):
+        got = [k for k in names if re.search(rx, k)]
+        if len(got) != 1: raise Broken('library surface of the PolyglotBook constructor changed: %s -> %s' % (rx, got))
+        return got[0]
+    MAP = r'^_ZNSt3mapImSt6vectorISt4pairIjiESaIS2_EESt4lessImESaIS1_IKmS4_EEE'
+    VECT = r'^_ZNSt6vectorISt4pairIjiESaIS1_EE'
+    S = {'map_ctor': one(MAP + 'C2Ev$'), 'map_dtor': one(MAP + 'D2Ev$'), 'find': one(MAP + '4findERS7_$'), 'end': one(MAP + '3endEv$'), 'index': one(MAP + 'ixERS7_$'),
+         'iter_eq': one(r'^_ZSteqRKSt17_Rb_tree_iteratorISt4pairIKmSt6vector'), 'vec_ctor': one(VECT + 'C2Ev$'), 'vec_dtor': one(VECT + 'D2Ev$'), 'vec_assign': one(VECT + 'aSEOS3_$'),
+         'push_back': one(VECT + '9push_backEOS1_$'), 'mt': one(r'^_ZNSt23mersenne_twister_engine.*C2Em$'), 'dist': one(r'^_ZNSt24uniform_int_distributionImEC2Ev$'),
+         'fpos': one(r'^_ZNSt4fposI11__mbstate_tEC2El$'), 'if_ctor': one(r'^_ZNSt14basic_ifstreamIcSt11char_traitsIcEEC1ERKNSt7__cxx1112basic_string'), 'if_dtor': one(r'^_ZNSt14basic_ifstreamIcSt11char_traitsIcEED1Ev$'),
+         'bool': one(r'^_ZNKSt9basic_iosIcSt11char_traitsIcEEcvbEv$'), 'read': one(r'^_ZNSi4readEPcl$'), 'seekg': one(r'^_ZNSi5seekgESt4fposI11__mbstate_tE$')}
+    c, h, info = ctx.translate(m, [CTOR], stubs=list(S.values()), out='ld')
+    header = open(h).read()
+    if CTOR not in header: raise Broken('PolyglotBook(path, seed) constructor not found')
+    B = {'map_ctor': '', 'map_dtor': '', 'vec_ctor': '', 'vec_dtor': '', 'mt': '', 'dist': '', 'fpos': '', 'if_dtor': '',
+         'if_ctor': '*(uint8_t **)v_0 = (uint8_t *)&FAKE_VT[3]; failed = !open_ok; fpos = 0;',
+         'seekg': 'return v_0;',
+         'bool': 'return !failed;',
+         'read': 'if (failed) return v_0; uint32_t rest = flen - fpos; uint32_t k = v_2 <= rest ? (uint32_t)v_2 : rest; for (uint32_t i = 0; i < 16; i++) if (i < k) v_1[i] = FILEB[(fpos + i) % (FMAX + 1)]; fpos += k; if (k < v_2) failed = 1; return v_0;',
+         'find': 'return &NODES[seen_idx(*v_1)];', 'end': 'return &NODES[NOUT];',
+         'iter_eq': 'return v_0->f0 == v_1->f0;',
+         'index': 'cur_key = *v_1; if (seen_idx(cur_key) == NOUT) { for (int i = 0; i < NOUT; i++) if (i == n_seen) SEEN[i] = cur_key; n_seen++; } return &VEC;',
+         'vec_assign': 'for (int i = 0; i < NOUT; i++) if (i < n_out && OUT[i].key == cur_key) dropped = 1; return v_0;',
+         'push_back': 'for (int i = 0; i < NOUT; i++) if (i == n_out) { OUT[i].key = cur_key; OUT[i].move = v_1->f0; OUT[i].weight = (int32_t)v_1->f1; } n_out++;'}
+    glue = ['#define LOADER %s' % CTOR] + [proto_stub(header, S[k], B[k]) for k in B]
+    open(ctx.path('c19_load_stubs.h'), 'w').write('\n'.join(glue) + '\n')
+    open(ctx.path('eng.h'), 'w').write('#include "ld.h"\n')
+    hp = os.path.join(VERIF, 'harness', 'c19_load.c')
+    D = ['NREC=%d' % NREC]
+    gb = ctx.gotocc('c19ld', [c, hp], D); gbw = ctx.gotocc('c19ldw', [c, hp], D + ['WITNESS'])
+    us = {'h_load.0': NREC * 16 + 17, 'h_load.1': NREC + 1, 'seen_idx.0': NREC + 3, 'be.0': 9, CTOR + '.0': NREC + 3}
+    smp = {'harness': 'h_load', 'file': 'arbitrary bytes, length 0..%d (or cannot be opened)' % (NREC * 16 + 15), 'entry': 'PolyglotBook::PolyglotBook(path, seed) as compiled'}
+    return ([Query('h_load', gb, 'h_load', us, timeout=900, sample=smp)],
+            [Query('w_h_load', gbw, 'h_load', us, timeout=900, meta={'of': 'h_load'}, expect='witness', max_unwind={'*': 70})])
+
 
 def check(ctx):
     m = ctx.module(TUS)
@@ -24,10 +68,22 @@ def check(ctx):
     us = {'minimal_position.0': 65, 'setup.0': nw + 1, 'h_random.0': nw + 1, 'h_random.1': nw + 1, 'h_best.0': nw + 1, 'h_best.1': nw + 1}
     qs = [Query(n, gb, n, us, timeout=900, sample={'harness': n, 'entries': '1..%d with symbolic moves and 16-bit weights' % nw, 'random value': 'arbitrary value below the total weight (covers every sample 0..total-1; the reduction of larger draws by the plain integer % is executed but only on such inputs)', 'board': 'arbitrary'}, max_unwind={'*': 70}) for n in names]
     ws = [Query('w_' + n, gbw, n, us, timeout=900, meta={'of': n}, expect='witness', max_unwind={'*': 70}) for n in names]
-    res = ctx.run_queries(qs + ws, label='c19')
+    lq, lw = build_loader(ctx, m)
+    res = ctx.run_queries(qs + ws + lq + lw, label='c19')
     wit = [r for r in res if r.q.expect == 'witness']; res = [r for r in res if r.q.expect != 'witness']
     def replay(ctx, r):
         ce = r.ce()
+        if r.q.name == 'h_load':
+            fl = ce.get('ce_flen', 0); by = ce.get('ce_file', {}); data = bytes((by.get(i, 0) & 255) for i in range(fl))
+            fp = ctx.path('replay_book.bin')
+            if ce.get('ce_open', 1): open(fp, 'wb').write(data)
+            elif os.path.exists(fp): os.remove(fp)
+            exe = ctx.native_bin('book_load_replay', [os.path.join(VERIF, 'native', 'book_load_replay.cpp')], ['polyglot', 'position', 'movegen', 'move_bitboards', 'bithacks', 'types', 'zobrist_hash', 'bitbase', 'endgame'])
+            out = ctx.sh([exe, fp], ok=(0, 1))
+            key = 'loader: file of %d bytes%s' % (fl, '' if ce.get('ce_open', 1) else ' (cannot be opened)')
+            path = report.save_replay(ctx, r.q.name, {'harness': r.q.name, 'file_length': fl, 'file_opens': bool(ce.get('ce_open', 1)), 'file_hex': data.hex(), 'records_loaded_in_model': ce.get('ce_nout'), 'native_output': out.strip().split('\n')})
+            return {'confirmed': 'REPRODUCED' in out and 'NOT-REPRODUCED' not in out, 'key': 'loader', 'path': path,
+                    'text': 'h_load: %s -> %s records in the model (complete records: %d) | native: %s' % (key, ce.get('ce_nout'), fl // 16 if ce.get('ce_open', 1) else 0, out.strip().replace('\n', ' / ')[:300])}
         n = ce.get('ce_n', 1); ws_ = [ce.get('ce_w', {}).get(i, 0) for i in range(n)]; ms = [ce.get('ce_m', {}).get(i, 0) for i in range(n)]
         if r.q.name == 'h_random':
             exe = ctx.native_bin('book_replay', [os.path.join(VERIF, 'native', 'book_replay.cpp')], ['polyglot', 'position', 'movegen', 'move_bitboards', 'bithacks', 'types', 'zobrist_hash', 'bitbase', 'endgame'])
@@ -39,6 +95,6 @@ def check(ctx):
         return {'confirmed': None, 'strict': True, 'key': r.q.name, 'path': path, 'text': '%s: %s %s' % (r.q.name, '; '.join(d for _, d in r.failed[:2]), {'moves': ms, 'weights': ws_})}
     return report.finish(ctx, res, wit, replay=replay,
         assumptions=['std::map::at replaced by a stub returning a harness-built vector; the Mersenne twister / uniform_int_distribution replaced by an arbitrary 64-bit value',
-                     'NOT covered: the file reader loop of the PolyglotBook constructor (std::ifstream / std::map insertion code cannot be lowered by the translator); '
+                     'file reader (h_load): the PolyglotBook constructor as compiled; std::ifstream replaced by a model (file = arbitrary bytes of arbitrary length 0..%d or unopenable; read copies min(n, rest) bytes and sets the fail state on a short read; operator bool = !fail), std::map / std::vector by recording stubs; NOT covered: libstdc++ itself, books longer than %d records, ' % (NREC * 16 + 15, NREC),
                      'the (negligible) modulo bias of reducing a 64-bit draw modulo the total weight'],
         bounds={'entries per key': '1..%d' % nw, 'weights': '0..65535 each (total > 0)', 'moves': 'any 15-bit stored move', 'board': 'arbitrary piece on every square'})
